@@ -460,6 +460,9 @@ class Engine:
             return ('i', iv)
         if k == 'cidx':
             return ('i', C(e['o'])) if not e['fe'] else ('x',)
+        if k == 'subslice':
+            # slice pattern `[a, b, rest @ ..]`: rest = base[from .. len − to] (from_end) or base[from .. to]
+            return ('s', e['from'], e['to'], bool(e['fe']))
         return ('x',)
 
     def load(self, root, proj, s):
@@ -514,6 +517,12 @@ class Engine:
                 return v[1][iv[1]]
             if v[0] in ('sym', 'term', 'arr', 'rec'):
                 return ('term', 'index', [v, iv])
+            return TOP
+        if k == 's':
+            if v[0] in ('sym', 'term') and v != TOP:
+                ln = ('term', 'len', [v])
+                hi = (ln if step[2] == 0 else ('term', 'Sub', [ln, C(step[2])])) if step[3] else C(step[2])
+                return ('term', 'subslice', [v, C(step[1]), hi])
             return TOP
         return TOP
 
@@ -591,6 +600,11 @@ class Engine:
         through_deref = any(e['k'] == 'deref' for e in place['p'])
         if last is not None and (through_deref or root is None or root[0] in ('H', 'V')):
             s.events.append(('write', last['of'], last['n'], val, (fn['path'], sp['line']), self._place_path(place)))
+        elif last is None and through_deref and root is not None and root[0] in ('H', 'V') and proj:
+            # `*r = v` where r is a `&mut` to a named field of an object (a helper handed `&mut self.field`): the same effect as writing the field
+            fsteps = [st_ for st_ in proj if st_[0] == 'f' and len(st_) > 3 and st_[3]]
+            if fsteps and proj[-1] == fsteps[-1]:
+                s.events.append(('write', fsteps[-1][3], fsteps[-1][2], val, (fn['path'], sp['line']), '.'.join(str(st_[2]) for st_ in proj if st_[0] == 'f')))
         if root is None:
             return
         self.store(root, proj, val, s)
@@ -897,7 +911,9 @@ class Engine:
             c = self._conv_leaf = {}
         if path not in c:
             f = self.p.fns[path]
-            c[path] = bool(re.search(r'( as core::convert::(From|Into)<[^>]*>>|<impl core::convert::(From|Into)<.*> for [\w:]+>)::(from|into)$', path)) and len(f['blocks']) <= 2 and \
+            leaf = len(f['blocks']) <= 2 and all(b['term']['k'] in ('return', 'goto') for b in f['blocks'])
+            # an argument-less leaf (`const fn minimum_packet_size() -> usize { 20 }`) is a named constant
+            c[path] = (leaf and f.get('argc', 1) == 0 and f['kind'] != 'Closure') or bool(re.search(r'( as core::convert::(From|Into)<[^>]*>>|<impl core::convert::(From|Into)<.*> for [\w:]+>)::(from|into)$', path)) and len(f['blocks']) <= 2 and \
                 all(b['term']['k'] in ('return', 'goto') for b in f['blocks'])
         return c[path]
 
